@@ -128,6 +128,12 @@ def sstep (cfg : Cfg) (uniqueIds : Bool) (s : SSt) : SOp → SSt × SOut
       | (s2, calls, none) => ({ s2 with lastAttend := s.core.monoMs }, { out := o, calls := calls })
       | (s2, calls, some e) => (s2, { out := .exc e, calls := calls })
     else (s1, { out := o, calls := [] })
+  | .core (.deregConsumer app) =>
+    -- `del_data_consumer_its_aid` also drops the subscriptions of the application
+    let (c1, o) := step cfg s.core (.deregConsumer app)
+    let s1 := { s with core := c1 }
+    (if s.core.consumers.contains app then (s.subs.filter (fun x => x.req.app == app)).foldl removeSub s1 else s1,
+     { out := o, calls := [] })
   | .core op =>
     let (c1, o) := step cfg s.core op
     ({ s with core := c1 }, { out := o, calls := [] })
